@@ -5,7 +5,7 @@ F = "scylla/src/cluster/metadata/merge_channel.rs:"
 PROPERTY = {
     "title": "metadata updates handed between driver workers are neither lost nor duplicated",
     "level": "model_checking",
-    "level_text": "Bounded model checking of the real hand-off code at poll granularity: Kani/CBMC explores EVERY schedule of up to 3 (quick) / 5 (thorough) steps from {merge(x), drop sender, start receive, poll receive, cancel receive} over the real merge_channel (tokio Notify, std Mutex, atomics as compiled) with a counting waker and checks: each received value is exactly the set of updates merged since the previous receive (none lost, none duplicated, in order), a poll is Ready whenever a value is pending, a parked consumer is woken by merge and by sender drop, None only after the sender is gone and the slot is empty, whatever is pending at the end is obtainable by one more receive, and modify returns Err after the receiver is dropped.",
+    "level_text": "Bounded model checking of the real hand-off code at poll granularity: Kani/CBMC explores EVERY schedule of up to 3 (quick) / 5 and 7 (thorough) steps from {merge(x), drop sender, start+poll receive, poll receive again, cancel receive} over the real merge_channel (recv state machine, std Mutex, atomics as compiled; tokio's Notify replaced by a contract model under cfg(kani)) with a ghost slot and a wake counter and checks: each received value is exactly the set of updates merged since the previous receive (none lost, none duplicated, in order), a poll is Ready whenever a value is pending, a parked consumer is woken by merge and by sender drop, None only after the sender is gone and the slot is empty, whatever is pending at the end is obtainable by one more receive, and modify returns Err after the receiver is dropped.",
     "level_note": "Bounded stand-in (schedule length), sequential: true multi-threaded interleavings inside modify/recv (between mutex release and notify_one, Acquire/Release pairs) are NOT covered — Kani has no threads. The user-visible liveness sentences (refresh eventually answered) are not covered.",
     "technique": "bounded model checking of the real code under a symbolic step schedule with Kani (labelled bounded; contracts as assertions over a ghost slot)",
     "timeout": 1500,
@@ -17,7 +17,7 @@ PROPERTY = {
         Harness("c19_canary_value_received_twice", "C19.canary", "BOUNDED", "a false claim must be refuted", carries=False, canary=True),
     ],
     "verus": [],
-    "trusted_base": ["Kani/CBMC soundness", "tokio::sync::Notify, std::sync::Mutex, atomics executed with sequential semantics", "std::rt::thread_cleanup stub (ICE work-around)"],
+    "trusted_base": ["Kani/CBMC soundness", "ASSUMED contract model of tokio::sync::Notify (kani/_base/scylla/src/cluster/metadata/merge_channel/verif_kani.rs: permit, single waiter, notification passed on when a notified future is dropped)", "std::sync::Mutex::lock stubbed by try_lock + checked non-contention; atomics executed with sequential semantics", "std::rt::thread_cleanup stub (ICE work-around)"],
     "assumptions": ["poll granularity: each step runs to completion before the next (no preemption inside modify/recv)"],
-    "not_covered": ["multi-threaded interleavings inside modify/recv", "liveness of the metadata refresh path (worker.rs)"],
+    "not_covered": ["tokio::sync::Notify itself (contract assumed)", "multi-threaded interleavings inside modify/recv", "liveness of the metadata refresh path (worker.rs)"],
 }
